@@ -394,9 +394,20 @@ def equals(I, a, b):
         if set(a.keys()) != set(b.keys()):
             return False
         return equals(I, [a[k] for k in a], [b[k] for k in a])
+    from .sym import SDict
+    if isinstance(a, SDict) or isinstance(b, SDict):
+        return a is b
     if isinstance(a, Opaque) or isinstance(b, Opaque):
         if a is b:
             return True
+        if isinstance(a, Opaque) and isinstance(b, Opaque):
+            fa, fb = a.fields.get('__fmt__'), b.fields.get('__fmt__')
+            if fa is not None and fb is not None and fa[0] == fb[0] and len(fa[1]) == len(fb[1]) \
+                    and not fa[2] and not fb[2]:
+                # the same template applied to pairwise equal arguments gives the same text
+                r = equals(I, list(fa[1]), list(fb[1]))
+                if r is True:
+                    return True
         return SBool(fresh("eq", z3.BoolSort()))
     if isinstance(a, ExcVal) or isinstance(b, ExcVal):
         return a is b
@@ -471,6 +482,10 @@ def int_term_e(e):
 
 def contains(I, container, item):
     container = I.resolve_opt(container)
+    from .sym import SDict
+    if isinstance(container, SDict):
+        from .builtins_model import sdict_get
+        return lower_bool(z3.Not(sdict_get(I, container, item).isnone))
     if isinstance(container, (list, tuple, set, frozenset)):
         acc = False
         for x in container:
@@ -646,6 +661,13 @@ def _slice_conc(s, lo, hi):
 def index(I, v, idx):
     v = I.resolve_opt(v)
     idx = I.resolve_opt(idx)
+    from .sym import SDict
+    if isinstance(v, SDict):
+        from .builtins_model import sdict_get
+        r = sdict_get(I, v, idx)
+        if I.path.branch(r.isnone):
+            I.raise_py(KeyError, "symbolic key")
+        return r.v
     MB = _pyvc().MutBytes
     if isinstance(v, MB):
         v = v.v
@@ -821,7 +843,9 @@ def format_opaque(I, fmt, args, kwargs=None):
         import re
         if re.sub(r'\{[^}]*\}|%[sdrx]', '', fmt):
             facts.add('nonempty')
-    return Opaque('str', 'format', taint, facts)
+    r = Opaque('str', 'format', taint, facts)
+    r.fields['__fmt__'] = (fmt, tuple(args), tuple(sorted((kwargs or {}).items())))
+    return r
 
 
 # ------------------------------------------------------------------ parts 2 and 3
